@@ -3,7 +3,7 @@ import time
 import traceback
 import z3
 
-from . import loader, npmodel, discharge
+from . import loader, npmodel, discharge, symlist  # noqa: F401
 from .interp import Interp, LoopSpec, View
 from .state import State
 from .values import Unsupported, PyRaise
@@ -34,6 +34,7 @@ class ObResult:
         self.witness = witness      # concrete replayable input, if any
         self.replayer = None        # native runtime-contract search for the function under contract
         self.replayed = None
+        self.definitive = True      # False: solver said sat over incomplete (axiomatised/quantified) theories
 
     def to_json(self):
         d = {"id": self.id, "status": self.status, "backend": self.backend, "secs": round(self.secs, 3),
@@ -146,7 +147,7 @@ class Ctx:
                     if post:
                         I.cur.append((module, qualname))
                         for step in post(I, o, pre):
-                            I.oblige(step[0], o.state, step[1])
+                            I.oblige(step[0], o.state, step[1], structural=True)
                             if len(step) > 2 and step[2] is not None:
                                 o.state.assume(step[2])   # proof step: proved above, used below
                         I.cur.pop()
@@ -196,7 +197,7 @@ class Ctx:
             groups.setdefault(key, []).append(ob)
         res = []
         for lab, obs in groups.items():
-            status, secs, backend, detail, model, line, wit = "discharged", 0.0, "z3", "", None, None, None
+            status, secs, backend, detail, model, line, wit, defin = "discharged", 0.0, "z3", "", None, None, None, True
             for ob in obs:
                 discharge.discharge(ob, self.timeout_ms)
                 secs += ob.time
@@ -208,6 +209,7 @@ class Ctx:
                         detail = ob.note or ""
                         model = discharge.model_to_dict(ob.model)
                         line = ob.line
+                        defin = getattr(ob, "definitive", True)
                         if witness is not None and ob.model is not None:
                             try:
                                 wit = witness(ob.model, lab)
@@ -218,6 +220,7 @@ class Ctx:
                         break
             res.append(self.add(ObResult(f"{prefix}/{name}/{lab}" if name else f"{prefix}/{lab}", status, backend,
                                          secs, len(obs), detail, model, line or obs[0].line, witness=wit)))
+            res[-1].definitive = defin
         if not res:
             res.append(self.add(ObResult(f"{prefix}/{name}/no-obligations", "error",
                                          detail="VC generation produced zero obligations")))
